@@ -214,12 +214,12 @@ def judge_c10(case, lab):
     a = case["a"]
     ob = Obs(case, lab)
     e, v, k = ob.get("eval"), ob.get("validate"), ob.get("keys")
-    pre = benign(a["eval"]) and benign(a["validate"]) and benign(a["keys"])
+    pre = benign(a["eval"]) and benign(a["validate"]) and benign(a["keys"]) and not a["swallows"]
     res.nontrivial = not (a["eval"]["ok"] and a["validate"]["ok"] and a["keys"]["ok"])
     if pre and not (e["ok"] == v["ok"] == k["ok"]):
         res.bad("agree", "bodies total and values in domain, yet evaluate: %s | validate: %s | keys: %s" % (
             observe.describe(e), observe.describe(v), observe.describe(k)))
-    if v["ok"] and not e["ok"] and e.get("cls") == "KeyNotFound":
+    if v["ok"] and not e["ok"] and e.get("cls") == "KeyNotFound" and not a["swallows"]:
         res.bad("validate-guards", "validate passed but evaluate fails for missing option %r" % e.get("key"))
     return res
 
@@ -267,7 +267,7 @@ def judge_c03_group(cases, lab):
             absent = sorted(key for key in K if not _has(ob.o, key))
             if absent:
                 res.bad("present-only", "keys() reports absent keys %s" % absent)
-            else:
+            elif not a["swallows"]:
                 if a["keys"]["ok"] and keyset(a["keys"]["ks"]) == K:
                     o_r = dec(a["restrict"])  # computed by the specification
                 else:
@@ -301,8 +301,211 @@ def judge_c03_group(cases, lab):
     return out
 
 
-JUDGES = {"C04": judge_c04, "C09": judge_c09, "C05": judge_c05, "C10": judge_c10, "C11": judge_c11}
-GROUP_JUDGES = {"C03": judge_c03_group}
+# -- C08 ---------------------------------------------------------------------------------------
+def _unwrapped(case):
+    """The same graph with the root's pre-set / default options taken away (for `with`: the
+    wrapped expression itself)."""
+    nodes = copy.deepcopy(case["nodes"])
+    root = nodes[-1]
+    empty = {"t": "d", "d": {}}
+    if root["k"] == "with":
+        keep = root["inner"]
+        return dict(case, nodes=nodes[:keep]) if keep == len(nodes) - 1 else None
+    if root["k"] == "ds":
+        root["q"], root["dd"] = empty, empty
+        return dict(case, nodes=nodes)
+    if root["k"] == "dsof":
+        # the derivative without its extra options is the base dataset with ITS options removed too
+        return None
+    return None
+
+
+def judge_c08(case, lab):
+    res = Result()
+    a = case["a"]
+    root = case["nodes"][-1]
+    if root["k"] not in ("with", "ds", "dsof"):
+        return res
+    o = dec(a["o"])
+    res.nontrivial = True
+    # (1) wrapped under o  ==  unwrapped under the overlaid dictionary computed by the specification
+    overlay = dec(a["overlay"])
+    un = _unwrapped(case)
+    g = _fresh(case, lab)
+    snap_o = copy.deepcopy(o)
+    snap_p = copy.deepcopy(g.presets)
+    o_live = copy.deepcopy(o)
+    got = observe.call(lambda: g.root.evaluate(o_live), lab)
+    if un is not None:
+        gu = _fresh(un, lab)
+        ref = observe.call(lambda: gu.root.evaluate(copy.deepcopy(overlay)), lab)
+        if not same_outcome(got, ref):
+            res.bad("overlay-evaluate", "wrapped under o: %s; unwrapped under o overlaid by the pre-set options %s: %s" % (
+                observe.describe(got), overlay, observe.describe(ref)))
+        gv = observe.call(lambda: _fresh(case, lab).root.validate(copy.deepcopy(o)), lab)
+        rv = observe.call(lambda: _fresh(un, lab).root.validate(copy.deepcopy(overlay)), lab)
+        if gv["ok"] != rv["ok"]:
+            res.bad("overlay-validate", "validate wrapped: %s; unwrapped under the overlay: %s" % (
+                observe.describe(gv), observe.describe(rv)))
+    # the specification's own value (covers derivatives, for which no unwrapped twin is built)
+    _cmp_outcome(res, "overlay-spec", got, a["eval"])
+    # (2) no call modifies the caller's dictionary or the pre-set dictionaries
+    for what in ("validate", "keys", "explain"):
+        fn = getattr(g.root, what)
+        observe.call(lambda: fn(o_live), lab)
+    if not strict_eq(o_live, snap_o):
+        res.bad("caller-mutated", "caller's dictionary changed from %s to %s" % (snap_o, o_live))
+    if not strict_eq(g.presets, snap_p):
+        res.bad("preset-mutated", "pre-set dictionaries changed from %s to %s" % (snap_p, g.presets))
+    return res
+
+
+# -- C01 / C02 / C06: histories on one long-lived graph ------------------------------------------
+def _orders(n, seedstr):
+    import random
+
+    idx = list(range(n))
+    yield idx
+    yield idx[::-1]
+    rng = random.Random(seedstr)
+    for _ in range(2):
+        sh = idx[:]
+        rng.shuffle(sh)
+        yield sh
+
+
+def judge_c01_group(cases, lab):
+    """Every dictionary of the graph evaluated in several orders on ONE long-lived instance;
+    each outcome must equal that of a freshly built copy (and the specification's value)."""
+    out = {id(c): Result() for c in cases}
+    if not cases or not _stateful(cases[0]):
+        return [(c, out[id(c)]) for c in cases]
+    fresh = []
+    for c in cases:
+        o = dec(c["a"]["o"])
+        g = _fresh(c, lab)
+        fresh.append((o, observe.call(lambda: g.root.evaluate(copy.deepcopy(o)), lab)))
+        _cmp_outcome(out[id(c)], "fresh-vs-spec", fresh[-1][1], c["a"]["eval"])
+    if any(f[1].get("lazy") for f in fresh):
+        # the graph hands out one-shot iterators (Iter / Map results that nothing consumed): what a
+        # second evaluation of a cached one-shot iterator yields is outside the statement
+        return [(c, out[id(c)]) for c in cases]
+    for order in _orders(len(cases), canon_nodes(cases[0])):
+        g = _fresh(cases[0], lab)
+        hist = []
+        for i in order:
+            o, ref = fresh[i]
+            got = observe.call(lambda: g.root.evaluate(copy.deepcopy(o)), lab)
+            res = out[id(cases[i])]
+            res.nontrivial = res.nontrivial or bool(hist)
+            if not same_outcome(got, ref):
+                res.bad("transparent", "after evaluating %s on the same graph, evaluate gives %s; a fresh copy gives %s" % (
+                    hist[-4:], observe.describe(got), observe.describe(ref)))
+            hist.append(o)
+    return [(c, out[id(c)]) for c in cases]
+
+
+def canon_nodes(case):
+    import json
+
+    return json.dumps(case["nodes"], sort_keys=True)
+
+
+def _runs(log, kind="body"):
+    cnt = {}
+    for e in log:
+        if e[0] == kind:
+            cnt[e[1]] = cnt.get(e[1], 0) + 1
+    return cnt
+
+
+def judge_c02_group(cases, lab):
+    out = {id(c): Result() for c in cases}
+    if not cases or not _stateful(cases[0]):
+        return [(c, out[id(c)]) for c in cases]
+    nodes = cases[0]["nodes"]
+    cached_bodies = _cached_body_ids(nodes)
+    for c in cases:
+        res = out[id(c)]
+        a = c["a"]
+        o = dec(a["o"])
+        g = _fresh(c, lab)
+        first = observe.call(lambda: g.root.evaluate(copy.deepcopy(o)), lab)
+        log1 = list(g.log)
+        if first.get("lazy"):
+            continue
+        # (4) within one evaluation: runs per cached dataset <= distinct demands (specification)
+        permit = {p["d"]: p["c"] for p in a["permit"]}
+        runs = {}
+        for e in log1:
+            if e[0] == "body" and e[3] in cached_bodies:
+                runs[e[3]] = runs.get(e[3], 0) + 1
+        for d, n in runs.items():
+            if n > permit.get(d, 0):
+                res.bad("runs-per-evaluation", "dataset node %d ran %d times in one evaluation; the specification permits %d" % (
+                    d, n, permit.get(d, 0)))
+        # (5) effects: once per body run of their dataset, after it, with its value
+        _check_effects(res, log1, nodes)
+        if not first["ok"]:
+            continue
+        res.nontrivial = True
+        # (1) exact repeat, (2) unmentioned keys added/changed, (3) top-level order permuted
+        mentions = keyset(a["mentions"])
+        variants = [("repeat", copy.deepcopy(o)),
+                    ("unmentioned-key", _with_unmentioned(o, mentions)),
+                    ("key-order", dict(reversed(list(copy.deepcopy(o).items()))))]
+        for name, o2 in variants:
+            n0 = len(g.log)
+            again = observe.call(lambda: g.root.evaluate(o2), lab)
+            new = [e for e in g.log[n0:] if e[0] in ("body", "effect") and e[3] in cached_bodies]
+            if new:
+                res.bad("memo-" + name, "re-evaluation (%s) ran %s again" % (name, [(e[0], e[1]) for e in new][:4]))
+            if not same_outcome(first, again):
+                res.bad("memo-value-" + name, "re-evaluation (%s) returned %s instead of %s" % (
+                    name, observe.describe(again), observe.describe(first)))
+    return [(c, out[id(c)]) for c in cases]
+
+
+def _with_unmentioned(o, mentions):
+    o2 = copy.deepcopy(o)
+    k = "UNMENTIONED"
+    while k in mentions:
+        k += "_"
+    o2[k] = {"anything": [1, 2, 3]}
+    if "Z" not in mentions and not any(m.startswith("Z.") for m in mentions):
+        o2["Z"] = "changed"
+    return o2
+
+
+def _cached_body_ids(nodes):
+    """ids of dataset nodes that memoise (a real cache, not NoCache)."""
+    out = set()
+    for i, nd in enumerate(nodes, start=1):
+        if nd["k"] == "ds" and nd.get("cache", "mem") == "mem":
+            out.add(i)
+    return out
+
+
+def _check_effects(res, log, nodes):
+    """Each effect entry must directly follow (body [, callback]) of its dataset with that value."""
+    last_val = {}
+    for e in log:
+        if e[0] == "dsvalue":
+            last_val[e[1]] = e[2]
+    # detailed order check: effects of dataset d appear only after a body run of d in this log
+    seen_body = set()
+    for e in log:
+        if e[0] in ("body", "callback"):
+            seen_body.add(e[3])
+        if e[0] == "effect":
+            d = e[3]
+            if d not in seen_body:
+                res.bad("effect-without-body", "effect %s of dataset node %s ran without its body having run" % (e[1], d))
+
+
+JUDGES = {"C04": judge_c04, "C09": judge_c09, "C05": judge_c05, "C10": judge_c10, "C11": judge_c11,
+          "C08": judge_c08}
+GROUP_JUDGES = {"C03": judge_c03_group, "C01": judge_c01_group, "C02": judge_c02_group}
 
 
 def ill_typed(case):
